@@ -1,4 +1,5 @@
 import BGV.Props.C19
+import BGV.Props.C11F
 /-!
 # Property C19 — the cost of the path-reconstruction loop itself
 
@@ -87,6 +88,15 @@ theorem C19_findGeodesics_path_le {L : Type} (g : G L) (s t : Nat) (hs : s < g.s
       rw [hplen, hlen] at this
       omega
     · rw [c2 hst hr] at h; cases h; simp
+
+/-- **C19, findGeodesicsFromVertex:** `V` entries of at most `V` vertices each — the search runs
+once and the `V` reconstruction loops together run fewer than `V²` iterations. -/
+theorem C19_findGeodesicsFromVertex_size {L : Type} (g : G L) (s : Nat) (hs : s < g.size)
+    (hwf : adjWF g.adj = true) (hlen : g.adj.length = g.size) (hn : g.size ≤ MAX) :
+    ∃ ps, findGeodesicsFromVertex g s = .ok ps ∧ ps.length = g.size ∧
+      ∀ t, t < g.size → (ps.getD t []).length ≤ g.size := by
+  obtain ⟨ps, h1, h2, h3⟩ := C11_findGeodesicsFromVertex g s hs hwf hlen hn
+  exact ⟨ps, h1, h2, fun t ht => C19_findGeodesics_path_le g s t hs ht hwf hlen hn _ (h3 t ht)⟩
 
 example : pathLoop [MAX, 0, 0, 1, MAX] 0 2 3 [] = some (.ok [0, 1, 3]) ∧
     pathLoop [MAX, 0, 0, 1, MAX] 0 1 3 [] = none := by decide
